@@ -63,13 +63,13 @@ theorem C11_stop_terminates (net : Net) (hwf : net.wf = true) (s : State) (hstop
     empty — for every well-formed network, pipe capacity and residual workload -/
 theorem C11_stop_final (net : Net) (hwf : net.wf = true) (s : State) (hr : Reachable net s) (hf : Final s) :
     (∀ n, n < net.nodes.length → s.nodes n = .s []) ∧ s.ledger = 0 :=
-  final_all_exited net (wf_sound net hwf) s (inv_reachable net hr) hf
+  final_all_exited net (wf_sound net hwf) s (inv_reachable net (wf_sound net hwf) hr) hf
 
 /-- thread queues: in every reachable state in which `__exit__` has not returned, some thread can move
     (no hang), for every tree shape, workers per servlet, residual workload and schedule -/
 theorem C11_stop_complete_partial (net : Net) (hwf : net.wf = true) (hub : Unbounded net) (s : State)
     (hr : Reachable net s) (hnf : ¬ Final s) : ∃ a, (step net s a).isSome = true :=
-  progress_of_inv net (wf_sound net hwf) hub s (inv_reachable net hr) hnf
+  progress_of_inv net (wf_sound net hwf) hub s (inv_reachable net (wf_sound net hwf) hr) hnf
 
 /-- the same for servlet trees made of thread servlets -/
 theorem C11_stop_complete_partial_tree (K : Nat) (t : Tree) (hwf : (compileServer K t).wf = true)
